@@ -13,6 +13,7 @@ import GaleneVerif.Engine.Store
 import GaleneVerif.Engine.Group
 import GaleneVerif.Engine.Unbounded
 import GaleneVerif.Engine.Locks
+import GaleneVerif.Engine.Api
 /-
 Line-protocol driver.  usage: driver <engine> [oracle-only] < trace
 `oracle-only` (failing-input search): model/impl mismatches do not end the case;
@@ -91,7 +92,8 @@ def engines : List (String × EngineDef) :=
     ("store", Galene.Engine.Store.engine),
     ("group", Galene.Engine.Group.engine),
     ("unbounded", Galene.Engine.Unbounded.engine),
-    ("locks", Galene.Engine.Locks.engine) ]
+    ("locks", Galene.Engine.Locks.engine),
+    ("api", Galene.Engine.Api.engine) ]
 
 def main (args : List String) : IO UInt32 := do
   let (name?, oracleOnly) := match args with
